@@ -2,7 +2,7 @@
    backwards; events are handled at their own time. *)
 From Coq Require Import ZArith Bool List.
 Import ListNotations.
-From Verif Require Import Model.Val Gen.Src_Task Gen.Src_Event Model.Sim Proofs.SimP Proofs.SimP2.
+From Verif Require Import Model.Val Gen.Src_Task Gen.Src_Event Model.EventQ Model.Sim Model.SimQ Proofs.SimP Proofs.SimP2 Proofs.SimQP.
 Open Scope Z_scope.
 
 Theorem C03_clock_monotone : forall W s e s', sim_step W s e = Some s' -> s_clock s <= s_clock s'.
@@ -40,3 +40,34 @@ Theorem C03_holds_worker_while_running : forall W l s t x,
   (In t (ids (s_res s)) <-> st x = TS_RUNNING).
 Proof. exact resident_iff_running. Qed.
 Print Assumptions C03_holds_worker_while_running.
+
+(* ---- with the event queue in the machine (Model/SimQ.v) *)
+(* no pending event is ever in the past: the main loop never has to step backwards *)
+Theorem C03_pending_never_in_the_past : forall W l q p,
+  cap_nonneg W -> sq_exec W sq_init l = Some q -> In p (q_pending q) -> s_clock (q_sim q) <= pe_time p.
+Proof. exact pending_never_in_the_past. Qed.
+Print Assumptions C03_pending_never_in_the_past.
+
+(* events take effect in key order: the event popped is pending, minimal under the documented key
+   (time, type priority, task name) among all pending events, and its time is the clock *)
+Theorem C03_popped_is_minimal_at_clock : forall W q p q', sq_step W q (QPop p) = Some q' ->
+  mem_pev p (q_pending q) = true /\ minimal p (q_pending q) = true /\ pe_time p = s_clock (q_sim q).
+Proof. exact popped_is_minimal_at_clock. Qed.
+Print Assumptions C03_popped_is_minimal_at_clock.
+
+Theorem C03_handled_is_popped : forall W q ty time t q',
+  sq_step W q (QSim (EHandle ty time t)) = Some q' -> exists p, q_popped q = Some p /\ handle_matches p ty time t = true.
+Proof. exact handled_is_popped. Qed.
+Print Assumptions C03_handled_is_popped.
+
+(* a task never starts earlier than the time its scheduler chose *)
+Theorem C03_start_not_before_chosen_time : forall W l q t time draw q',
+  cap_nonneg W -> sq_exec W sq_init l = Some q -> sq_step W q (QSim (EStart t time draw)) = Some q' ->
+  ptime_of (q_sim q) t <= time /\ time = s_clock (q_sim q).
+Proof. exact start_not_before_chosen_time. Qed.
+Print Assumptions C03_start_not_before_chosen_time.
+
+(* every theorem above about the plain machine applies to runs of the machine with the queue *)
+Theorem C03_queue_runs_are_machine_runs : forall W l q, cap_nonneg W -> sq_exec W sq_init l = Some q -> Inv W (q_sim q).
+Proof. exact simq_runs_are_sim_runs. Qed.
+Print Assumptions C03_queue_runs_are_machine_runs.
